@@ -129,7 +129,7 @@ package bigbuff
 
 //@ func (*ChanCaster).Add
 //@   maypanic
-//@   props C08
+//@   props C08 C06 C07
 //@   requires recv : x != nil
 //@   mode bv
 //@   ensures range : ret >= 0 && ret <= 2147483647
@@ -154,7 +154,7 @@ package bigbuff
 
 //@ func (*ChanCaster).Send
 //@   maypanic
-//@   props C08
+//@   props C08 C06 C07
 //@   requires recv : x != nil
 //@   mode bv
 //@   ensures range : ret >= 0 && ret <= 2147483647
